@@ -179,10 +179,18 @@ func exShape(base string, g *exGraph, abs bool, at ...string) string {
 		info = exAnalyseAt(g.store(), g.Root, at...)
 	}
 	ks := info.knownShape()
+	if ks == "" && len(at) > 0 {
+		// the failing position itself is clear of the known defects, but another part of the (shrunk) graph is not: the expander
+		// shares the set of references found circular and the document cache across the whole run, and the sections are visited in
+		// map order, so a known defect elsewhere can surface here on some runs; the shape says so
+		if w := g.analyse().knownShape(); w != "" {
+			ks = "via:" + w
+		}
+	}
 	if g.hasTag("id") {
 		ks = "id" // an `id` registers a pseudo document for the whole run
 	}
-	if ks == "response-imported-circular" && abs {
+	if strings.HasSuffix(ks, "response-imported-circular") && abs {
 		ks = "" // that defect needs the relative rendering of circular references
 	}
 	if ks == "" {
